@@ -10,6 +10,7 @@ PROP = {
              "request must be admitted'. Non-trivial: some request is refused while the quota is full and a later one is admitted after a release. "
              "distinct = canonical JSON of config+history"),
     "assumptions": [
+        "request_expiration_sec and gc_interval_sec are each left out in a quarter of the configurations; the documented defaults (60 s, 30 s) are then the expected values",
         "half of the configurations add an independent fixed-window quota that never refuses (100000 per minute), consulted by a second Limiter behind or in front of the concurrency Limiter: every way a transaction ends must still free the concurrency slot",
         "in-memory shared state only; cluster liveness (multi-gateway) is not modelled",
         "between a slot's expiry and the next collector pass either verdict is accepted (the statement says 'at the latest when its expiry passes'; the implementation collects periodically)",
